@@ -8,6 +8,13 @@ the structured names of `Model/Ctor.lean` (and rendered back: the round trip mus
     theorem ctor_<group> : forall r in rows_<group>, spec r.1 = r.2 := by decide +kernel
 A constructor that changes its kernel name, assembly type, option order, dispatch rule, complex flag or kernel dimension
 breaks the theorem of its group.
+
+Second table: for every distinct recorded descriptor, `select_numba_kernels(descriptor, mode)` is called (modes regular and
+singular for boundary operators, potential for potentials and far fields); the two selected functions must BE the module
+attributes of their `__name__` (object identity: these are the functions the kernel and assembler tracers translate), the
+names are parsed into (assembly type | kernel name, mode), and
+    theorem select_<group> : forall r in select_rows_<group>, selectSpec r.1 r.2.1 = r.2.2 := by decide +kernel
+A swapped entry of one of the dictionaries in `select_numba_kernels` breaks the theorem of its group.
 """
 import os
 
@@ -65,6 +72,68 @@ def parse_asm(s):
     raise GenError(f"constructor tie: unknown assembly type {s!r}")
 
 
+MODES = {"regular": "regular", "singular": "singular", "potential": "potential"}
+EM = {"efield": "efield", "mfield": "mfield"}
+
+
+def parse_asm_fn(name):
+    """assembly function __name__ -> (Asm term, mode)"""
+    for mode in ("regular", "singular", "potential"):
+        if name == f"default_scalar_{mode}_kernel":
+            return ".defaultScalar", mode
+    for fam in FAMILIES:
+        for mode in ("regular", "singular"):
+            if name == f"{fam}_hypersingular_{mode}":
+                return f"(.hypersingular .{FAMILIES[fam]})", mode
+    for f in EM:
+        if name == f"maxwell_{f}_regular_assembler":
+            return f"(.maxwell .{f})", "regular"
+        if name == f"maxwell_{f}_singular":
+            return f"(.maxwell .{f})", "singular"
+        if name == f"maxwell_{f}_potential":
+            return f"(.maxwell .{f})", "potential"
+        if name == f"maxwell_{f}_far_field":
+            return f"(.maxwellFar .{f})", "potential"
+    raise GenError(f"constructor tie: unknown assembly function {name!r}")
+
+
+def parse_kernel_fn(name):
+    """kernel function __name__ -> (Name term, mode)"""
+    for mode in ("regular", "singular"):
+        if name.endswith("_" + mode):
+            f, far, l_ = parse_name(name[:-len(mode) - 1])
+            if far:
+                break
+            return f"⟨.{f}, false, .{l_}⟩", mode
+    f, far, l_ = parse_name(name)
+    if not far:
+        raise GenError(f"constructor tie: kernel function {name!r} has no _regular/_singular suffix")
+    return f"⟨.{f}, true, .{l_}⟩", "regular"
+
+
+def _select_rows(kind, d, seen):
+    """rows of select_numba_kernels(d, mode) for the modes the assemblers of this kind use"""
+    import bempp_cl.core.numba_kernels as nk
+    out = []
+    for mode in (("regular", "singular") if kind == "boundary" else ("potential",)):
+        key = (d.kernel_type, d.assembly_type, mode)
+        if key in seen:
+            continue
+        seen.add(key)
+        try:
+            af, kf = nk.select_numba_kernels(d, mode=mode)
+        except Exception as e:  # noqa
+            raise GenError(f"constructor tie: select_numba_kernels({d.identifier}, {mode}) raised {type(e).__name__}: {e}")
+        an, kn = af.__name__, kf.__name__
+        if getattr(nk, an, None) is not af or getattr(nk, kn, None) is not kf:
+            raise GenError(f"constructor tie: select_numba_kernels returns an object that is not numba_kernels.{an}/{kn}")
+        a_t, a_m = parse_asm_fn(an)
+        k_t, k_m = parse_kernel_fn(kn)
+        out.append((f"({_desc_term(d)}, .{mode}, (⟨({a_t}, .{a_m}), ({k_t}, .{k_m})⟩ : Selected))",
+                    f"select_numba_kernels({d.identifier}, {mode}) -> {an}, {kn}"))
+    return out
+
+
 def _desc_term(d):
     ident = d.identifier
     if ident.endswith("_boundary"):
@@ -104,7 +173,11 @@ def record():
     B, P, F = api.operators.boundary, api.operators.potential, api.operators.far_field
     groups = {}
 
+    seen_sel = set()
+    sel_rows = groups.setdefault("__select__", {})
+
     def add(group, kind, fam, layer, kre, kim, om, d, call_txt):
+        sel_rows.setdefault(group, []).extend(_select_rows(kind, d, seen_sel))
         call = f"⟨.{KINDS[kind]}, .{FAMILIES[fam]}, .{LAYERS[layer]}, {kre}, {kim}, {om}⟩"
         groups.setdefault(group, []).append((call, _desc_term(d), f"{call_txt} -> {d.identifier} {list(map(float, d.options))} "
                                              f"{d.kernel_type} {d.assembly_type} complex={bool(d.is_complex)} "
@@ -167,6 +240,7 @@ def record():
 
 def generate():
     groups = record()
+    select = groups.pop("__select__")
     L = ["/- GENERATED by props/ctor_gen.py from descriptors recorded while calling the real constructors of /repo.",
          "   Do not edit. -/", "import BemppVerif.Model.Ctor", "", "namespace BemppVerif.Gen.CtorTable",
          "open BemppVerif.Model.Ctor", ""]
@@ -184,6 +258,19 @@ def generate():
         L.append(f"theorem ctor_{gname} : ∀ r ∈ rows_{gname}, spec r.1 = r.2 := by decide +kernel")
         L.append("")
         thms.append(f"BemppVerif.Gen.CtorTable.ctor_{gname}")
+        srows = select.get(gname, [])
+        if srows:
+            nrows += len(srows)
+            L.append(f"def select_rows_{gname} : List (Desc × Mode × Selected) := [")
+            for i, (term, txt) in enumerate(srows):
+                L.append(f"  -- {txt}")
+                L.append(f"  {term}" + ("," if i + 1 < len(srows) else ""))
+            L.append("]")
+            L.append(f"/-- `select_numba_kernels` hands the `{gname}` descriptors to the assembly / kernel functions the "
+                     "specification names -/")
+            L.append(f"theorem select_{gname} : ∀ r ∈ select_rows_{gname}, selectSpec r.1 r.2.1 = r.2.2 := by decide +kernel")
+            L.append("")
+            thms.append(f"BemppVerif.Gen.CtorTable.select_{gname}")
     L.append("end BemppVerif.Gen.CtorTable")
     ch = T.write_if_changed(os.path.join(LEAN, "BemppVerif/Gen/CtorTable.lean"), "\n".join(L) + "\n")
     return dict(ctor_rows=nrows, ctor_groups=len(groups), ctor_table_changed=bool(ch)), thms
